@@ -751,4 +751,630 @@ theorem gcCachesOnly_spec {s : Arena} (hs : s.OK) :
   ⟨⟨hs.twf, Cache2OK.nil _ _, Cache2OK.nil _ _, Cache2OK.nil _ _, CacheNOK.nil _⟩, rfl, rfl, rfl, rfl, rfl⟩
 
 
+
+/-! ## Part D: arena operations with their caches refine the tree operations -/
+
+/-- postcondition of a memoised binary operation started in table `t`: it returns (no panic, fuel
+suffices), only appends, keeps `TWF` and the cache invariant, and the result denotes `z` -/
+def Post2 (f : Z → Z → Z) (t : Table) (z : Z) (o : Option (Table × Cache2 × Ref)) : Prop :=
+  ∃ t' c' r, o = some (t', c', r) ∧ Ext t t' ∧ TWF t' ∧ Cache2OK f t' c' ∧ Valid t' r ∧ treeOf t' r = z
+
+theorem Post2.ret {f : Z → Z → Z} {t : Table} {c : Cache2} {r : Ref} {z : Z} (hw : TWF t) (hc : Cache2OK f t c)
+    (hv : Valid t r) (hz : treeOf t r = z) : Post2 f t z (some (t, c, r)) :=
+  ⟨t, c, r, rfl, Ext.refl _, hw, hc, hv, hz⟩
+
+/-- one recursive call, then `get_or_create(v, new_lo, hi)` with an existing `hi` -/
+theorem Post2.mk1 {f : Z → Z → Z} {t : Table} {zlo : Z} {o : Option (Table × Cache2 × Ref)} (hw : TWF t)
+    (h : Post2 f t zlo o) {v : Nat} {hi : Ref} (hhi : Valid t hi) (olo : Ord (v + 1) zlo) (ohi : Ord (v + 1) (treeOf t hi)) :
+    Post2 f t (mk v zlo (treeOf t hi))
+      (do let (t1, c1, nlo) ← o; let (t2, r) := getOrCreate t1 v nlo hi; pure (t2, c1, r)) := by
+  obtain ⟨t1, c1, nlo, e1, x1, w1, k1, v1, z1⟩ := h
+  have hhi1 := x1.valid hhi
+  have thi : treeOf t1 hi = treeOf t hi := tree_stable hw.toBelow x1 hhi
+  have hx := getOrCreate_ext t1 v nlo hi
+  have hw2 := twf_getOrCreate w1 (v := v) v1 hhi1 (by rw [z1]; exact olo) (by rw [thi]; exact ohi)
+  have hv2 := getOrCreate_valid (v := v) (hi := hi) v1
+  have ht2 := tree_getOrCreate w1.toBelow (v := v) v1 hhi1
+  rw [z1, thi] at ht2
+  generalize hgc : getOrCreate t1 v nlo hi = g at *
+  obtain ⟨t2, r⟩ := g
+  exact ⟨t2, c1, r, by simp [e1, hgc], x1.trans hx, hw2, k1.mono w1.toBelow hx, hv2, ht2⟩
+
+/-- two recursive calls, then `get_or_create(v, new_lo, new_hi)` -/
+theorem Post2.mk2 {f : Z → Z → Z} {t : Table} {zlo zhi : Z} {o1 : Option (Table × Cache2 × Ref)}
+    {o2 : Table → Cache2 → Option (Table × Cache2 × Ref)}
+    (h1 : Post2 f t zlo o1) (h2 : ∀ t1 c1, Ext t t1 → TWF t1 → Cache2OK f t1 c1 → Post2 f t1 zhi (o2 t1 c1))
+    {v : Nat} (olo : Ord (v + 1) zlo) (ohi : Ord (v + 1) zhi) :
+    Post2 f t (mk v zlo zhi)
+      (do let (t1, c1, nlo) ← o1; let (t2, c2, nhi) ← o2 t1 c1; let (t3, r) := getOrCreate t2 v nlo nhi; pure (t3, c2, r)) := by
+  obtain ⟨t1, c1, nlo, e1, x1, w1, k1, v1, z1⟩ := h1
+  obtain ⟨t2, c2, nhi, e2, x2, w2, k2, v2, z2⟩ := h2 t1 c1 x1 w1 k1
+  have v1' := x2.valid v1
+  have z1' : treeOf t2 nlo = zlo := by rw [tree_stable w1.toBelow x2 v1, z1]
+  have hx := getOrCreate_ext t2 v nlo nhi
+  have hw3 := twf_getOrCreate w2 (v := v) v1' v2 (by rw [z1']; exact olo) (by rw [z2]; exact ohi)
+  have hv3 := getOrCreate_valid (v := v) (hi := nhi) v1'
+  have ht3 := tree_getOrCreate w2.toBelow (v := v) v1' v2
+  rw [z1', z2] at ht3
+  generalize hgc : getOrCreate t2 v nlo nhi = g at *
+  obtain ⟨t3, r⟩ := g
+  exact ⟨t3, c2, r, by simp [e1, e2, hgc], x1.trans (x2.trans hx), hw3, k2.mono w2.toBelow hx, hv3, ht3⟩
+
+/-- `cache.insert((a, b), result)` -/
+theorem Post2.insert {f : Z → Z → Z} {t : Table} {z : Z} {o : Option (Table × Cache2 × Ref)} (hw : TWF t)
+    (h : Post2 f t z o) {a b : Ref} (ha : Valid t a) (hb : Valid t b) (hz : z = f (treeOf t a) (treeOf t b)) :
+    Post2 f t z (do let (t', c', r) ← o; pure (t', ((a, b), r) :: c', r)) := by
+  obtain ⟨t1, c1, r, e1, x1, w1, k1, v1, z1⟩ := h
+  refine ⟨t1, ((a, b), r) :: c1, r, by simp [e1], x1, w1, ?_, v1, z1⟩
+  intro a' b' r' hm
+  rcases List.mem_cons.1 hm with heq | hm
+  · cases heq
+    exact ⟨x1.valid ha, x1.valid hb, v1, by rw [z1, hz, tree_stable hw.toBelow x1 ha, tree_stable hw.toBelow x1 hb]⟩
+  · exact k1 a' b' r' hm
+
+theorem norm_cases {a b : Ref} (ha : a ≠ .E) (hb : b ≠ .E) (hab : a ≠ b) :
+    (norm a b = (a, b) ∨ norm a b = (b, a)) ∧
+    (((norm a b).1 = .B ∧ ∃ j, (norm a b).2 = .N j) ∨ ∃ i j, (norm a b).1 = .N i ∧ (norm a b).2 = .N j ∧ i ≠ j) := by
+  cases a <;> cases b <;> simp_all [norm, Ref.le]
+  rename_i i j
+  by_cases h : i ≤ j <;> simp [h] <;> omega
+
+theorem tree_ord_ge {t : Table} (h : TWF t) {j : Nat} {y : Node} (hg : t[j]? = some y) {n : Nat} (hn : n ≤ y.v) :
+    Ord n (treeOf t (.N j)) := by
+  have := tree_ord_child h hg
+  rw [tree_N h.toBelow hg, ord_node]; exact ⟨hn, this⟩
+
+theorem tree_ne_of_ne {t : Table} (h : TWF t) {a b : Ref} (ha : Valid t a) (hb : Valid t b) (hne : a ≠ b) :
+    treeOf t a ≠ treeOf t b := fun heq => hne (tree_inj h ha hb heq)
+
+theorem unionT_spec : ∀ (fuel : Nat) (t : Table) (c : Cache2) (a b : Ref), TWF t → Cache2OK union t c →
+    Valid t a → Valid t b → a.rank + b.rank < fuel →
+    Post2 union t (union (treeOf t a) (treeOf t b)) (unionT fuel t c a b) := by
+  intro fuel
+  induction fuel with
+  | zero => intro t c a b _ _ _ _ h; omega
+  | succ fuel ih =>
+    intro t c a b hw hc ha hb hf
+    rw [unionT]
+    by_cases hae : a = .E
+    · subst hae; simp only [if_true, tree_E, union_empty_left]; exact Post2.ret hw hc hb rfl
+    by_cases hbe : b = .E
+    · subst hbe; simp only [hae, if_false, if_true, tree_E, union_empty_right]; exact Post2.ret hw hc ha rfl
+    by_cases hab : a = b
+    · subst hab; simp only [hae, if_false, if_true, union_self]; exact Post2.ret hw hc ha rfl
+    simp only [hae, hbe, hab, if_false]
+    -- the normalised core
+    have core : ∀ a' b' : Ref, Valid t a' → Valid t b' → a' ≠ b' → a'.rank + b'.rank < fuel + 1 →
+        ((a' = .B ∧ ∃ j, b' = .N j) ∨ ∃ i j, a' = .N i ∧ b' = .N j ∧ i ≠ j) →
+        Post2 union t (union (treeOf t a') (treeOf t b'))
+          (match c.lookup (a', b') with
+          | some r => some (t, c, r)
+          | none =>
+            if a' = .B ∧ b' = .B then some (t, c, .B) else do
+            let (av, alo, ahi) ← nodeInfo t a'
+            let (bv, blo, bhi) ← nodeInfo t b'
+            let (t1, c1, r) ← (match av, bv with
+              | some av, some bv =>
+                if av < bv then do
+                  let (t, c, nlo) ← unionT fuel t c alo b'
+                  let (t, r) := getOrCreate t av nlo ahi
+                  pure (t, c, r)
+                else if av > bv then do
+                  let (t, c, nlo) ← unionT fuel t c a' blo
+                  let (t, r) := getOrCreate t bv nlo bhi
+                  pure (t, c, r)
+                else do
+                  let (t, c, nlo) ← unionT fuel t c alo blo
+                  let (t, c, nhi) ← unionT fuel t c ahi bhi
+                  let (t, r) := getOrCreate t av nlo nhi
+                  pure (t, c, r)
+              | some av, none => do
+                  let (t, c, nlo) ← unionT fuel t c alo b'
+                  let (t, r) := getOrCreate t av nlo ahi
+                  pure (t, c, r)
+              | none, some bv => do
+                  let (t, c, nlo) ← unionT fuel t c a' blo
+                  let (t, r) := getOrCreate t bv nlo bhi
+                  pure (t, c, r)
+              | none, none => none)
+            pure (t1, ((a', b'), r) :: c1, r)) := by
+      intro a' b' ha' hb' hab' hf' hshape
+      cases hlk : c.lookup (a', b') with
+      | some r =>
+        obtain ⟨_, _, h3, h4⟩ := hc a' b' r (mem_of_lookup hlk)
+        exact Post2.ret hw hc h3 h4
+      | none =>
+        rcases hshape with ⟨rfl, j, rfl⟩ | ⟨i, j, rfl, rfl, hij⟩
+        · obtain ⟨y, hy⟩ := get_of_valid hb'
+          have hcy := hw.toBelow.child_valid hy
+          have hby := hw.below hy
+          have hoy := tree_ord_child hw hy
+          simp only [nodeInfo, hy]
+          refine Post2.insert hw ?_ ha' hb' rfl
+          rw [tree_N hw.toBelow hy, tree_B, union_base_node]
+          refine Post2.mk1 hw ?_ hcy.2 (ord_union _ _ _ (ord_base _) hoy.1) hoy.2
+          have := ih t c .B y.lo hw hc (valid_B _) hcy.1 (by simp only [rank_B, rank_N] at *; omega)
+          simpa using this
+        · obtain ⟨x, hx⟩ := get_of_valid ha'
+          obtain ⟨y, hy⟩ := get_of_valid hb'
+          have hcx := hw.toBelow.child_valid hx
+          have hbx := hw.below hx
+          have hox := tree_ord_child hw hx
+          have hcy := hw.toBelow.child_valid hy
+          have hby := hw.below hy
+          have hoy := tree_ord_child hw hy
+          have hne := tree_ne_of_ne hw ha' hb' hab'
+          simp only [rank_N] at hf'
+          simp only [nodeInfo, hx, hy]
+          refine Post2.insert hw ?_ ha' hb' rfl
+          rw [tree_N hw.toBelow hx, tree_N hw.toBelow hy] at hne ⊢
+          rcases Nat.lt_trichotomy x.v y.v with hlt | heq | hgt
+          · simp only [hlt, if_true]
+            rw [union_lt hlt, ← tree_N hw.toBelow hy]
+            refine Post2.mk1 hw ?_ hcx.2 (ord_union _ _ _ hox.1 (tree_ord_ge hw hy (by omega))) hox.2
+            exact ih t c x.lo (.N j) hw hc hcx.1 hb' (by simp only [rank_N]; omega)
+          · rw [heq] at hne ⊢
+            simp only [Nat.lt_irrefl, if_false]
+            rw [union_eq hne]
+            refine Post2.mk2 (o2 := fun t c => unionT fuel t c x.hi y.hi) (ih t c x.lo y.lo hw hc hcx.1 hcy.1 (by omega)) (fun t1 c1 x1 w1 k1 => ?_)
+              (ord_union _ _ _ (heq ▸ hox.1) hoy.1) (ord_union _ _ _ (heq ▸ hox.2) hoy.2)
+            have := ih t1 c1 x.hi y.hi w1 k1 (x1.valid hcx.2) (x1.valid hcy.2) (by omega)
+            rwa [tree_stable hw.toBelow x1 hcx.2, tree_stable hw.toBelow x1 hcy.2] at this
+          · simp only [if_neg (Nat.lt_asymm hgt), hgt, if_true]
+            rw [union_gt hgt, ← tree_N hw.toBelow hx]
+            refine Post2.mk1 hw ?_ hcy.2 (ord_union _ _ _ (tree_ord_ge hw hx (by omega)) hoy.1) hoy.2
+            exact ih t c (.N i) y.lo hw hc ha' hcy.1 (by simp only [rank_N]; omega)
+    obtain ⟨hn, hshape⟩ := norm_cases hae hbe hab
+    rcases hn with hn | hn
+    · rw [hn] at hshape ⊢
+      exact core a b ha hb hab hf hshape
+    · rw [hn] at hshape ⊢
+      rw [union_comm]
+      exact core b a hb ha (Ne.symm hab) (by omega) hshape
+
+
+theorem interT_spec : ∀ (fuel : Nat) (t : Table) (c : Cache2) (a b : Ref), TWF t → Cache2OK inter t c →
+    Valid t a → Valid t b → a.rank + b.rank < fuel →
+    Post2 inter t (inter (treeOf t a) (treeOf t b)) (interT fuel t c a b) := by
+  intro fuel
+  induction fuel with
+  | zero => intro t c a b _ _ _ _ h; omega
+  | succ fuel ih =>
+    intro t c a b hw hc ha hb hf
+    rw [interT]
+    by_cases hae : a = .E
+    · subst hae; simp only [true_or, if_true, tree_E, inter_empty_left]; exact Post2.ret hw hc (valid_E _) rfl
+    by_cases hbe : b = .E
+    · subst hbe; simp only [or_true, if_true, tree_E, inter_empty_right]; exact Post2.ret hw hc (valid_E _) rfl
+    by_cases hab : a = b
+    · subst hab; simp only [hae, or_self, if_false, if_true, inter_self]; exact Post2.ret hw hc ha rfl
+    simp only [hae, hbe, hab, or_self, if_false]
+    have core : ∀ a' b' : Ref, Valid t a' → Valid t b' → a' ≠ b' → a'.rank + b'.rank < fuel + 1 →
+        ((a' = .B ∧ ∃ j, b' = .N j) ∨ ∃ i j, a' = .N i ∧ b' = .N j ∧ i ≠ j) →
+        Post2 inter t (inter (treeOf t a') (treeOf t b'))
+          (match c.lookup (a', b') with
+          | some r => some (t, c, r)
+          | none =>
+            if a' = .B ∧ b' = .B then some (t, c, .B) else do
+            let (av, alo, ahi) ← nodeInfo t a'
+            let (bv, blo, bhi) ← nodeInfo t b'
+            let (t1, c1, r) ← (match av, bv with
+              | some av, some bv =>
+                if av < bv then interT fuel t c alo b'
+                else if av > bv then interT fuel t c a' blo
+                else do
+                  let (t, c, nlo) ← interT fuel t c alo blo
+                  let (t, c, nhi) ← interT fuel t c ahi bhi
+                  let (t, r) := getOrCreate t av nlo nhi
+                  pure (t, c, r)
+              | some _, none => if b' = .B then interT fuel t c alo .B else pure (t, c, .E)
+              | none, some _ => if a' = .B then interT fuel t c .B blo else pure (t, c, .E)
+              | none, none => if a' = .B ∧ b' = .B then pure (t, c, .B) else pure (t, c, .E))
+            pure (t1, ((a', b'), r) :: c1, r)) := by
+      intro a' b' ha' hb' hab' hf' hshape
+      cases hlk : c.lookup (a', b') with
+      | some r =>
+        obtain ⟨_, _, h3, h4⟩ := hc a' b' r (mem_of_lookup hlk)
+        exact Post2.ret hw hc h3 h4
+      | none =>
+        rcases hshape with ⟨rfl, j, rfl⟩ | ⟨i, j, rfl, rfl, hij⟩
+        · obtain ⟨y, hy⟩ := get_of_valid hb'
+          have hcy := hw.toBelow.child_valid hy
+          have hby := hw.below hy
+          simp only [nodeInfo, hy]
+          refine Post2.insert hw ?_ ha' hb' rfl
+          rw [tree_N hw.toBelow hy, tree_B, inter_base_node]
+          have := ih t c .B y.lo hw hc (valid_B _) hcy.1 (by simp only [rank_B, rank_N] at *; omega)
+          simpa using this
+        · obtain ⟨x, hx⟩ := get_of_valid ha'
+          obtain ⟨y, hy⟩ := get_of_valid hb'
+          have hcx := hw.toBelow.child_valid hx
+          have hbx := hw.below hx
+          have hox := tree_ord_child hw hx
+          have hcy := hw.toBelow.child_valid hy
+          have hby := hw.below hy
+          have hoy := tree_ord_child hw hy
+          have hne := tree_ne_of_ne hw ha' hb' hab'
+          simp only [rank_N] at hf'
+          simp only [nodeInfo, hx, hy]
+          refine Post2.insert hw ?_ ha' hb' rfl
+          rw [tree_N hw.toBelow hx, tree_N hw.toBelow hy] at hne ⊢
+          rcases Nat.lt_trichotomy x.v y.v with hlt | heq | hgt
+          · simp only [hlt, if_true]
+            rw [inter_lt hlt, ← tree_N hw.toBelow hy]
+            exact ih t c x.lo (.N j) hw hc hcx.1 hb' (by simp only [rank_N]; omega)
+          · rw [heq] at hne ⊢
+            simp only [Nat.lt_irrefl, if_false]
+            rw [inter_eq hne]
+            refine Post2.mk2 (o2 := fun t c => interT fuel t c x.hi y.hi) (ih t c x.lo y.lo hw hc hcx.1 hcy.1 (by omega)) (fun t1 c1 x1 w1 k1 => ?_)
+              (ord_inter _ _ _ (heq ▸ hox.1) hoy.1) (ord_inter _ _ _ (heq ▸ hox.2) hoy.2)
+            have := ih t1 c1 x.hi y.hi w1 k1 (x1.valid hcx.2) (x1.valid hcy.2) (by omega)
+            rwa [tree_stable hw.toBelow x1 hcx.2, tree_stable hw.toBelow x1 hcy.2] at this
+          · simp only [if_neg (Nat.lt_asymm hgt), hgt, if_true]
+            rw [inter_gt hgt, ← tree_N hw.toBelow hx]
+            exact ih t c (.N i) y.lo hw hc ha' hcy.1 (by simp only [rank_N]; omega)
+    obtain ⟨hn, hshape⟩ := norm_cases hae hbe hab
+    rcases hn with hn | hn
+    · rw [hn] at hshape ⊢
+      exact core a b ha hb hab hf hshape
+    · rw [hn] at hshape ⊢
+      rw [inter_comm]
+      exact core b a hb ha (Ne.symm hab) (by omega) hshape
+
+theorem diffT_spec : ∀ (fuel : Nat) (t : Table) (c : Cache2) (a b : Ref), TWF t → Cache2OK diff t c →
+    Valid t a → Valid t b → a.rank + b.rank < fuel →
+    Post2 diff t (diff (treeOf t a) (treeOf t b)) (diffT fuel t c a b) := by
+  intro fuel
+  induction fuel with
+  | zero => intro t c a b _ _ _ _ h; omega
+  | succ fuel ih =>
+    intro t c a b hw hc ha hb hf
+    rw [diffT]
+    by_cases hae : a = .E
+    · subst hae; simp only [if_true, tree_E, diff_empty_left]; exact Post2.ret hw hc (valid_E _) rfl
+    by_cases hbe : b = .E
+    · subst hbe; simp only [hae, if_false, if_true, tree_E, diff_empty_right]; exact Post2.ret hw hc ha rfl
+    by_cases hab : a = b
+    · subst hab; simp only [hae, if_false, if_true, diff_self]; exact Post2.ret hw hc (valid_E _) rfl
+    simp only [hae, hbe, hab, if_false]
+    cases hlk : c.lookup (a, b) with
+    | some r =>
+      obtain ⟨_, _, h3, h4⟩ := hc a b r (mem_of_lookup hlk)
+      exact Post2.ret hw hc h3 h4
+    | none =>
+      cases a with
+      | E => exact absurd rfl hae
+      | B =>
+        cases b with
+        | E => exact absurd rfl hbe
+        | B => exact absurd rfl hab
+        | N j =>
+          obtain ⟨y, hy⟩ := get_of_valid hb
+          have hcy := hw.toBelow.child_valid hy
+          have hby := hw.below hy
+          simp only [nodeInfo, hy]
+          refine Post2.insert hw ?_ ha hb rfl
+          rw [tree_N hw.toBelow hy, tree_B, diff_base_node]
+          have := ih t c .B y.lo hw hc (valid_B _) hcy.1 (by simp only [rank_B, rank_N] at *; omega)
+          simpa using this
+      | N i =>
+        obtain ⟨x, hx⟩ := get_of_valid ha
+        have hcx := hw.toBelow.child_valid hx
+        have hbx := hw.below hx
+        have hox := tree_ord_child hw hx
+        cases b with
+        | E => exact absurd rfl hbe
+        | B =>
+          simp only [nodeInfo, hx]
+          refine Post2.insert hw ?_ ha hb rfl
+          rw [tree_N hw.toBelow hx, tree_B, diff_node_base]
+          have h1 := ih t c x.lo .B hw hc hcx.1 (valid_B _) (by simp only [rank_B, rank_N] at *; omega)
+          rw [tree_B] at h1
+          have := Post2.mk1 hw h1 hcx.2 (ord_diff _ _ _ hox.1 (ord_base _)) hox.2
+          simpa using this
+        | N j =>
+          obtain ⟨y, hy⟩ := get_of_valid hb
+          have hcy := hw.toBelow.child_valid hy
+          have hby := hw.below hy
+          have hoy := tree_ord_child hw hy
+          have hne := tree_ne_of_ne hw ha hb hab
+          simp only [rank_N] at hf
+          simp only [nodeInfo, hx, hy]
+          refine Post2.insert hw ?_ ha hb rfl
+          rw [tree_N hw.toBelow hx, tree_N hw.toBelow hy] at hne ⊢
+          rcases Nat.lt_trichotomy x.v y.v with hlt | heq | hgt
+          · simp only [hlt, if_true]
+            rw [diff_lt hlt, ← tree_N hw.toBelow hy]
+            refine Post2.mk1 hw ?_ hcx.2 (ord_diff _ _ _ hox.1 (tree_ord_ge hw hy (by omega))) hox.2
+            exact ih t c x.lo (.N j) hw hc hcx.1 hb (by simp only [rank_N]; omega)
+          · rw [heq] at hne ⊢
+            simp only [Nat.lt_irrefl, if_false]
+            rw [diff_eq hne]
+            refine Post2.mk2 (o2 := fun t c => diffT fuel t c x.hi y.hi) (ih t c x.lo y.lo hw hc hcx.1 hcy.1 (by omega)) (fun t1 c1 x1 w1 k1 => ?_)
+              (ord_diff _ _ _ (heq ▸ hox.1) hoy.1) (ord_diff _ _ _ (heq ▸ hox.2) hoy.2)
+            have := ih t1 c1 x.hi y.hi w1 k1 (x1.valid hcx.2) (x1.valid hcy.2) (by omega)
+            rwa [tree_stable hw.toBelow x1 hcx.2, tree_stable hw.toBelow x1 hcy.2] at this
+          · simp only [if_neg (Nat.lt_asymm hgt), hgt, if_true]
+            rw [diff_gt hgt, ← tree_N hw.toBelow hx]
+            exact ih t c (.N i) y.lo hw hc ha hcy.1 (by simp only [rank_N]; omega)
+
+
+theorem unionA_spec {t : Table} {c : Cache2} {a b : Ref} (hw : TWF t) (hc : Cache2OK union t c)
+    (ha : Valid t a) (hb : Valid t b) : Post2 union t (union (treeOf t a) (treeOf t b)) (unionA t c a b) :=
+  unionT_spec _ t c a b hw hc ha hb (Nat.lt_succ_self _)
+
+theorem interA_spec {t : Table} {c : Cache2} {a b : Ref} (hw : TWF t) (hc : Cache2OK inter t c)
+    (ha : Valid t a) (hb : Valid t b) : Post2 inter t (inter (treeOf t a) (treeOf t b)) (interA t c a b) :=
+  interT_spec _ t c a b hw hc ha hb (Nat.lt_succ_self _)
+
+theorem diffA_spec {t : Table} {c : Cache2} {a b : Ref} (hw : TWF t) (hc : Cache2OK diff t c)
+    (ha : Valid t a) (hb : Valid t b) : Post2 diff t (diff (treeOf t a) (treeOf t b)) (diffA t c a b) :=
+  diffT_spec _ t c a b hw hc ha hb (Nat.lt_succ_self _)
+
+/-- a mk step on a plain table -/
+theorem mk_step {t : Table} (hw : TWF t) {v : Nat} {lo hi : Ref} (hlo : Valid t lo) (hhi : Valid t hi)
+    (olo : Ord (v + 1) (treeOf t lo)) (ohi : Ord (v + 1) (treeOf t hi)) :
+    Ext t (getOrCreate t v lo hi).1 ∧ TWF (getOrCreate t v lo hi).1 ∧
+    Valid (getOrCreate t v lo hi).1 (getOrCreate t v lo hi).2 ∧
+    treeOf (getOrCreate t v lo hi).1 (getOrCreate t v lo hi).2 = mk v (treeOf t lo) (treeOf t hi) :=
+  ⟨getOrCreate_ext _ _ _ _, twf_getOrCreate hw hlo hhi olo ohi, getOrCreate_valid hlo, tree_getOrCreate hw.toBelow hlo hhi⟩
+
+/-- per-call cache of `product_with_optional(var)`: every entry is correct -/
+def Cache1OK (var : Nat) (t : Table) (pc : Cache1) : Prop :=
+  ∀ a r, (a, r) ∈ pc → Valid t a ∧ Valid t r ∧ treeOf t r = pwo (treeOf t a) var
+
+theorem Cache1OK.nil (var : Nat) (t : Table) : Cache1OK var t [] := by intro a r h; simp at h
+
+theorem Cache1OK.mono {var : Nat} {t t' : Table} {pc : Cache1} (hb : Below t) (hx : Ext t t') (h : Cache1OK var t pc) :
+    Cache1OK var t' pc := by
+  intro a r hm
+  obtain ⟨h1, h2, h3⟩ := h a r hm
+  exact ⟨hx.valid h1, hx.valid h2, by rw [tree_stable hb hx h1, tree_stable hb hx h2, h3]⟩
+
+def PostP (var : Nat) (t : Table) (z : Z) (o : Option (Table × Cache2 × Cache1 × Ref)) : Prop :=
+  ∃ t' uc' pc' r, o = some (t', uc', pc', r) ∧ Ext t t' ∧ TWF t' ∧ Cache2OK union t' uc' ∧ Cache1OK var t' pc' ∧
+    Valid t' r ∧ treeOf t' r = z
+
+theorem PostP.insert {var : Nat} {t : Table} {o : Option (Table × Cache2 × Cache1 × Ref)} {a : Ref} (hw : TWF t)
+    (h : PostP var t (pwo (treeOf t a) var) o) (ha : Valid t a) :
+    PostP var t (pwo (treeOf t a) var) (do let (t', uc', pc', r) ← o; pure (t', uc', (a, r) :: pc', r)) := by
+  obtain ⟨t1, uc1, pc1, r, e1, x1, w1, u1, p1, v1, z1⟩ := h
+  refine ⟨t1, uc1, (a, r) :: pc1, r, by simp [e1], x1, w1, u1, ?_, v1, z1⟩
+  intro a' r' hm
+  rcases List.mem_cons.1 hm with heq | hm
+  · cases heq
+    exact ⟨x1.valid ha, v1, by rw [z1, tree_stable hw.toBelow x1 ha]⟩
+  · exact p1 a' r' hm
+
+theorem pwoT_spec (persist : Bool) (var : Nat) : ∀ (fuel : Nat) (t : Table) (uc : Cache2) (pc : Cache1) (a : Ref),
+    TWF t → Cache2OK union t uc → Cache1OK var t pc → Valid t a → a.rank ≤ fuel →
+    PostP var t (pwo (treeOf t a) var) (pwoT persist fuel t uc pc a var) := by
+  intro fuel
+  induction fuel with
+  | zero =>
+    intro t uc pc a hw hu hp ha hf
+    cases a with
+    | E => exact ⟨t, uc, pc, .E, by simp [pwoT], Ext.refl _, hw, hu, hp, valid_E _, by simp [pwo]⟩
+    | B =>
+      obtain ⟨x, w, v, z⟩ := mk_step hw (v := var) (valid_B t) (valid_B t) (ord_base _) (ord_base _)
+      generalize hgc : getOrCreate t var .B .B = g at *
+      obtain ⟨t1, r⟩ := g
+      exact ⟨t1, uc, pc, r, by simp [pwoT, hgc], x, w, hu.mono hw.toBelow x, hp.mono hw.toBelow x, v, by simpa [pwo] using z⟩
+    | N i => simp at hf
+  | succ fuel ih =>
+    intro t uc pc a hw hu hp ha hf
+    cases a with
+    | E => exact ⟨t, uc, pc, .E, by simp [pwoT], Ext.refl _, hw, hu, hp, valid_E _, by simp [pwo]⟩
+    | B =>
+      obtain ⟨x, w, v, z⟩ := mk_step hw (v := var) (valid_B t) (valid_B t) (ord_base _) (ord_base _)
+      generalize hgc : getOrCreate t var .B .B = g at *
+      obtain ⟨t1, r⟩ := g
+      exact ⟨t1, uc, pc, r, by simp [pwoT, hgc], x, w, hu.mono hw.toBelow x, hp.mono hw.toBelow x, v, by simpa [pwo] using z⟩
+    | N i =>
+      simp only [rank_N] at hf
+      rw [pwoT]
+      cases hlk : pc.lookup (.N i) with
+      | some r =>
+        obtain ⟨_, h2, h3⟩ := hp _ r (mem_of_lookup hlk)
+        exact ⟨t, uc, pc, r, rfl, Ext.refl _, hw, hu, hp, h2, h3⟩
+      | none =>
+        obtain ⟨n, hn⟩ := get_of_valid ha
+        have hcn := hw.toBelow.child_valid hn
+        have hbn := hw.below hn
+        have hon := tree_ord_child hw hn
+        simp only [hn, Option.bind_eq_bind, Option.bind_some]
+        refine PostP.insert hw ?_ ha
+        rw [tree_N hw.toBelow hn, pwo]
+        by_cases hlt : n.v < var
+        · simp only [hlt, if_true]
+          obtain ⟨t1, uc1, pc1, nlo, e1, x1, w1, u1, p1, v1, z1⟩ := ih t uc pc n.lo hw hu hp hcn.1 (by omega)
+          obtain ⟨t2, uc2, pc2, nhi, e2, x2, w2, u2, p2, v2, z2⟩ :=
+            ih t1 uc1 pc1 n.hi w1 u1 p1 (x1.valid hcn.2) (by omega)
+          rw [tree_stable hw.toBelow x1 hcn.2] at z2
+          have v1' := x2.valid v1
+          have z1' : treeOf t2 nlo = pwo (treeOf t n.lo) var := by rw [tree_stable w1.toBelow x2 v1, z1]
+          obtain ⟨x3, w3, v3, z3⟩ := mk_step w2 (v := n.v) v1' v2
+            (by rw [z1']; exact ord_pwo _ _ _ hon.1 (by omega)) (by rw [z2]; exact ord_pwo _ _ _ hon.2 (by omega))
+          rw [z1', z2] at z3
+          generalize hgc : getOrCreate t2 n.v nlo nhi = g at *
+          obtain ⟨t3, r⟩ := g
+          exact ⟨t3, uc2, pc2, r, by simp [e1, e2, hgc], x1.trans (x2.trans x3), w3, u2.mono w2.toBelow x3,
+            p2.mono w2.toBelow x3, v3, z3⟩
+        · by_cases heq : n.v = var
+          · simp only [heq, if_false, if_true, Nat.lt_irrefl]
+            have hu' : Cache2OK union t (if persist then uc else []) := by
+              cases persist
+              · exact Cache2OK.nil _ _
+              · exact hu
+            obtain ⟨t1, uc1, nhi, e1, x1, w1, u1, v1, z1⟩ := unionA_spec hw hu' hcn.1 hcn.2
+            have hlo1 := x1.valid hcn.1
+            have zlo : treeOf t1 n.lo = treeOf t n.lo := tree_stable hw.toBelow x1 hcn.1
+            obtain ⟨x2, w2, v2, z2⟩ := mk_step w1 (v := var) hlo1 v1
+              (by rw [zlo]; exact heq ▸ hon.1) (by rw [z1]; exact ord_union _ _ _ (heq ▸ hon.1) (heq ▸ hon.2))
+            rw [zlo, z1] at z2
+            generalize hgc : getOrCreate t1 var n.lo nhi = g at *
+            obtain ⟨t2, r⟩ := g
+            refine ⟨t2, if persist then uc1 else uc, pc, r, by simp [e1, hgc], x1.trans x2, w2, ?_,
+              hp.mono hw.toBelow (x1.trans x2), v2, z2⟩
+            cases persist
+            · exact hu.mono hw.toBelow (x1.trans x2)
+            · exact u1.mono w1.toBelow x2
+          · simp only [hlt, heq, if_false]
+            have hgt : var < n.v := by omega
+            obtain ⟨x1, w1, v1, z1⟩ := mk_step hw (v := var) ha ha (tree_ord_ge hw hn (by omega)) (tree_ord_ge hw hn (by omega))
+            rw [tree_N hw.toBelow hn] at z1
+            generalize hgc : getOrCreate t var (.N i) (.N i) = g at *
+            obtain ⟨t1, r⟩ := g
+            exact ⟨t1, uc, pc, r, by simp, x1, w1, hu.mono hw.toBelow x1, hp.mono hw.toBelow x1, v1, z1⟩
+
+
+theorem countT_spec : ∀ (fuel : Nat) (t : Table) (cc : CacheN) (a : Ref), TWF t → CacheNOK t cc → Valid t a →
+    a.rank ≤ fuel → ∃ cc' k, countT fuel t cc a = some (cc', k) ∧ CacheNOK t cc' ∧ k = Zdd.count (treeOf t a) := by
+  intro fuel
+  induction fuel with
+  | zero =>
+    intro t cc a hw hc ha hf
+    cases a with
+    | E => exact ⟨cc, 0, by simp [countT], hc, by simp [Zdd.count]⟩
+    | B => exact ⟨cc, 1, by simp [countT], hc, by simp [Zdd.count]⟩
+    | N i => simp at hf
+  | succ fuel ih =>
+    intro t cc a hw hc ha hf
+    cases a with
+    | E => exact ⟨cc, 0, by simp [countT], hc, by simp [Zdd.count]⟩
+    | B => exact ⟨cc, 1, by simp [countT], hc, by simp [Zdd.count]⟩
+    | N i =>
+      simp only [rank_N] at hf
+      rw [countT]
+      cases hlk : cc.lookup (.N i) with
+      | some k =>
+        obtain ⟨_, h2⟩ := hc _ k (mem_of_lookup hlk)
+        exact ⟨cc, k, rfl, hc, h2⟩
+      | none =>
+        obtain ⟨n, hn⟩ := get_of_valid ha
+        have hcn := hw.toBelow.child_valid hn
+        have hbn := hw.below hn
+        obtain ⟨cc1, k1, e1, c1, z1⟩ := ih t cc n.lo hw hc hcn.1 (by omega)
+        obtain ⟨cc2, k2, e2, c2, z2⟩ := ih t cc1 n.hi hw c1 hcn.2 (by omega)
+        refine ⟨(.N i, k1 + k2) :: cc2, k1 + k2, by simp [hn, e1, e2], ?_, by rw [tree_N hw.toBelow hn, Zdd.count, z1, z2]⟩
+        intro r k hm
+        rcases List.mem_cons.1 hm with heq | hm
+        · cases heq; exact ⟨ha, by rw [tree_N hw.toBelow hn, Zdd.count, z1, z2]⟩
+        · exact c2 r k hm
+
+theorem containsT_spec : ∀ (fuel : Nat) (t : Table) (a : Ref) (q : List Nat), TWF t → Valid t a → a.rank ≤ fuel →
+    containsT fuel t a q = some (Zdd.contains (treeOf t a) q) := by
+  intro fuel
+  induction fuel with
+  | zero =>
+    intro t a q hw ha hf
+    cases a with
+    | E => simp [containsT, Zdd.contains]
+    | B => simp [containsT, Zdd.contains]
+    | N i => simp at hf
+  | succ fuel ih =>
+    intro t a q hw ha hf
+    cases a with
+    | E => simp [containsT, Zdd.contains]
+    | B => simp [containsT, Zdd.contains]
+    | N i =>
+      simp only [rank_N] at hf
+      obtain ⟨n, hn⟩ := get_of_valid ha
+      have hcn := hw.toBelow.child_valid hn
+      have hbn := hw.below hn
+      rw [containsT, tree_N hw.toBelow hn]
+      simp only [hn, Option.bind_eq_bind, Option.bind_some]
+      cases q with
+      | nil => simp only [Zdd.contains]; exact ih t n.lo [] hw hcn.1 (by omega)
+      | cons x q' =>
+        simp only [Zdd.contains]
+        by_cases h1 : n.v = x
+        · simp only [h1, if_true]; exact ih t n.hi q' hw hcn.2 (by omega)
+        · by_cases h2 : n.v > x
+          · simp [h1, h2]
+          · simp only [h1, h2, if_false]; exact ih t n.lo (x :: q') hw hcn.1 (by omega)
+
+theorem fromSortedT_spec : ∀ (l : List Nat) (t : Table), TWF t → l.Pairwise (· < ·) →
+    Ext t (fromSortedT t l).1 ∧ TWF (fromSortedT t l).1 ∧ Valid (fromSortedT t l).1 (fromSortedT t l).2 ∧
+    treeOf (fromSortedT t l).1 (fromSortedT t l).2 = fromSorted l := by
+  intro l
+  induction l with
+  | nil => intro t hw _; exact ⟨Ext.refl _, hw, valid_B _, rfl⟩
+  | cons v vs ih =>
+    intro t hw hp
+    simp only [List.pairwise_cons] at hp
+    obtain ⟨x1, w1, v1, z1⟩ := ih t hw hp.2
+    simp only [fromSortedT, fromSorted]
+    generalize fromSortedT t vs = g at *
+    obtain ⟨t1, r1⟩ := g
+    obtain ⟨x2, w2, v2, z2⟩ := mk_step w1 (v := v) (valid_E t1) v1 (ord_empty _)
+      (by rw [z1]; exact ord_fromSorted vs (v + 1) hp.2 (fun x hx => hp.1 x hx))
+    rw [z1] at z2
+    exact ⟨x1.trans x2, w2, v2, by simpa using z2⟩
+
+
+/-! ### the public arena API -/
+
+/-- an arena whose table only grew keeps every existing ref valid with the same tree -/
+theorem ext_keeps {t t' : Table} (hw : TWF t) (hx : Ext t t') {x : Ref} (hv : Valid t x) :
+    Valid t' x ∧ treeOf t' x = treeOf t x := ⟨hx.valid hv, tree_stable hw.toBelow hx hv⟩
+
+theorem Arena.union_spec {s : Arena} (hs : s.OK) {a b : Ref} (ha : Valid s.table a) (hb : Valid s.table b) :
+    ∃ s' r, s.union a b = some (s', r) ∧ s'.OK ∧ Ext s.table s'.table ∧ Valid s'.table r ∧
+      treeOf s'.table r = Zdd.union (treeOf s.table a) (treeOf s.table b) := by
+  obtain ⟨t', c', r, e, x, w, k, v, z⟩ := unionA_spec hs.twf hs.u ha hb
+  exact ⟨{ s with table := t', ucache := c' }, r, by simp [Arena.union, e],
+    ⟨w, k, hs.i.mono hs.twf.toBelow x, hs.d.mono hs.twf.toBelow x, hs.c.mono hs.twf.toBelow x⟩, x, v, z⟩
+
+theorem Arena.inter_spec {s : Arena} (hs : s.OK) {a b : Ref} (ha : Valid s.table a) (hb : Valid s.table b) :
+    ∃ s' r, s.inter a b = some (s', r) ∧ s'.OK ∧ Ext s.table s'.table ∧ Valid s'.table r ∧
+      treeOf s'.table r = Zdd.inter (treeOf s.table a) (treeOf s.table b) := by
+  obtain ⟨t', c', r, e, x, w, k, v, z⟩ := interA_spec hs.twf hs.i ha hb
+  exact ⟨{ s with table := t', icache := c' }, r, by simp [Arena.inter, e],
+    ⟨w, hs.u.mono hs.twf.toBelow x, k, hs.d.mono hs.twf.toBelow x, hs.c.mono hs.twf.toBelow x⟩, x, v, z⟩
+
+theorem Arena.diff_spec {s : Arena} (hs : s.OK) {a b : Ref} (ha : Valid s.table a) (hb : Valid s.table b) :
+    ∃ s' r, s.diff a b = some (s', r) ∧ s'.OK ∧ Ext s.table s'.table ∧ Valid s'.table r ∧
+      treeOf s'.table r = Zdd.diff (treeOf s.table a) (treeOf s.table b) := by
+  obtain ⟨t', c', r, e, x, w, k, v, z⟩ := diffA_spec hs.twf hs.d ha hb
+  exact ⟨{ s with table := t', dcache := c' }, r, by simp [Arena.diff, e],
+    ⟨w, hs.u.mono hs.twf.toBelow x, hs.i.mono hs.twf.toBelow x, k, hs.c.mono hs.twf.toBelow x⟩, x, v, z⟩
+
+theorem Arena.pwo_spec {s : Arena} (hs : s.OK) {a : Ref} (ha : Valid s.table a) (var : Nat) :
+    ∃ s' r, s.pwo a var = some (s', r) ∧ s'.OK ∧ Ext s.table s'.table ∧ Valid s'.table r ∧
+      treeOf s'.table r = Zdd.pwo (treeOf s.table a) var := by
+  obtain ⟨t', uc', pc', r, e, x, w, k, _, v, z⟩ :=
+    pwoT_spec true var (a.rank + 1) s.table s.ucache [] a hs.twf hs.u (Cache1OK.nil _ _) ha (Nat.le_succ _)
+  exact ⟨{ s with table := t', ucache := uc' }, r, by simp [Arena.pwo, e],
+    ⟨w, k, hs.i.mono hs.twf.toBelow x, hs.d.mono hs.twf.toBelow x, hs.c.mono hs.twf.toBelow x⟩, x, v, z⟩
+
+theorem Arena.count_spec {s : Arena} (hs : s.OK) {a : Ref} (ha : Valid s.table a) :
+    ∃ s', s.count a = some (s', Zdd.count (treeOf s.table a)) ∧ s'.OK ∧ s'.table = s.table := by
+  obtain ⟨cc', k, e, c, z⟩ := countT_spec (a.rank + 1) s.table s.ccache a hs.twf hs.c ha (Nat.le_succ _)
+  subst z
+  exact ⟨{ s with ccache := cc' }, by simp [Arena.count, e], ⟨hs.twf, hs.u, hs.i, hs.d, c⟩, rfl⟩
+
+theorem Arena.contains_spec {s : Arena} (hs : s.OK) {a : Ref} (ha : Valid s.table a) (q : List Nat) :
+    s.contains a q = some (Zdd.contains (treeOf s.table a) (normalize q)) :=
+  containsT_spec _ _ _ _ hs.twf ha (Nat.le_succ _)
+
+theorem Arena.singleton_spec {s : Arena} (hs : s.OK) (var : Nat) :
+    (s.singleton var).1.OK ∧ Ext s.table (s.singleton var).1.table ∧
+      Valid (s.singleton var).1.table (s.singleton var).2 ∧
+      treeOf (s.singleton var).1.table (s.singleton var).2 = Zdd.singleton var := by
+  obtain ⟨x, w, v, z⟩ := mk_step hs.twf (v := var) (valid_E _) (valid_B _) (ord_empty _) (ord_base _)
+  simp only [Arena.singleton]
+  exact ⟨⟨w, hs.u.mono hs.twf.toBelow x, hs.i.mono hs.twf.toBelow x, hs.d.mono hs.twf.toBelow x,
+    hs.c.mono hs.twf.toBelow x⟩, x, v, by simpa [Zdd.singleton] using z⟩
+
+theorem Arena.fromSet_spec {s : Arena} (hs : s.OK) (l : List Nat) :
+    (s.fromSet l).1.OK ∧ Ext s.table (s.fromSet l).1.table ∧
+      Valid (s.fromSet l).1.table (s.fromSet l).2 ∧
+      treeOf (s.fromSet l).1.table (s.fromSet l).2 = Zdd.fromSet l := by
+  obtain ⟨x, w, v, z⟩ := fromSortedT_spec (normalize l) s.table hs.twf (normalize_spec l).1
+  simp only [Arena.fromSet]
+  exact ⟨⟨w, hs.u.mono hs.twf.toBelow x, hs.i.mono hs.twf.toBelow x, hs.d.mono hs.twf.toBelow x,
+    hs.c.mono hs.twf.toBelow x⟩, x, v, z⟩
+
+
 end Varpulis.ZddT
